@@ -301,7 +301,10 @@ static int recv_events(m_ctx_t *c, int timeout) {
                         fired_yet = true;
                     } else {
                         p->flags |= M_SRC_ZOMBIE;
-                        m_map_remove(mod->subscriptions, p->ps_src.topic);
+                        /* Unless it was already unsubscribed, or replaced by a new subscription to the same topic */
+                        if (m_map_get(mod->subscriptions, p->ps_src.topic) == p) {
+                            m_map_remove(mod->subscriptions, p->ps_src.topic);
+                        }
                     }
                 }
                 
